@@ -7,7 +7,7 @@ from vlib.props import C02
 LEVEL = "proof"
 MANIFEST = dict(
     category="proof",
-    text="OPN2::noteOn (extracted on every run). PROVED for every double p and every cached instrument (contract, loop contracts): the call returns; it writes nothing or exactly DT/MUL of the four operators, A4 (block <= 7, F-number high bits) before A0 (F-number low), key-on of its own channel last; detune nibbles preserved; no float overflow, NaN or undefined float-to-int conversion. CHECKED ON A GRID (bounded, native execution of the same extracted text): for both clock families and every p = k/64 semitone from 0 to 116 (6.6 kHz, top of the multiplier-free range) the written block/F-number is within one F-number step of 440*2^((p-69)/12)*144*2^21/clock and non-decreasing in p. Constant lemma (exact rational arithmetic on the constants read from the source): 0.057762265 = ln2/12 within 1e-10; 321.88557 and 309.12412 equal 440*2^(-69/12)*144*2^21/clock within 2e-5 relative (a 40th of an F-number step).",
+    text="OPN2::noteOn (extracted on every run). PROVED for every double p and every cached instrument (contract, loop contracts): the call returns; it writes nothing or exactly DT/MUL of the four operators, A4 (block <= 7, F-number high bits) before A0 (F-number low), key-on of its own channel last; detune nibbles preserved; no float overflow, NaN or undefined float-to-int conversion. CHECKED ON A GRID (bounded, native execution of the same extracted text): for both clock families and every p = k/64 semitone from 0 to 116 (6.6 kHz, top of the multiplier-free range) the written block/F-number is within one F-number step of 440*2^((p-69)/12)*144*2^21/clock and non-decreasing in p. Constant lemma (exact rational arithmetic on the constants read from the source): the three constants of the source (0.057762265, 321.88557, 309.12412) deviate from ln2/12 and 440*2^(-69/12)*144*2^21/clock by less than half an F-number step over the whole key range (128*|dk| + |dcoef|/coef < 1/4094; measured 6e-9 + 1.1e-5).",
     design_ref="DESIGN.md A.1 / C10",
     level_note="NOT covered: the composition p = key + bend*range + offset + vibrato in noteUpdate (list code), 're-pitches every sounding note at once', tones between grid points (the nearest-step relation for ALL doubles would need reasoning about exp() and rounding that was not attempted), the multiplier range above 6.6 kHz. exp(): in the contract group any double may come back; the sweep uses libm.",
     technique="CBMC code contracts with loop contracts on the extracted member function; bounded native sweep of the same text; exact-arithmetic constant lemma")
@@ -35,7 +35,10 @@ def extra(tier, workroot):
             def ideal(clock):   # 440 * 2^(-69/12) * 144 * 2^21 / clock, to ~1e-15
                 return Fraction(440.0 * 2.0 ** (-69.0 / 12.0)).limit_denominator(10**18) * 144 * 2**21 / clock
             e1 = abs(k - ln2_12); e2 = abs(c2 / ideal(7670454) - 1); e3 = abs(ca / ideal(7987200) - 1)
-            ok = e1 < Fraction(1, 10**10) and e2 < Fraction(2, 10**5) and e3 < Fraction(2, 10**5)
+            # budget: nearest rounding costs half an F-number step; the constants may cost the other half at the top F-number
+            # (2047) over the whole key range (tone <= 128):  128*|dk| + |dcoef|/coef < 1/(2*2047)
+            half_step = Fraction(1, 2 * 2047)
+            ok = 128 * e1 + e2 < half_step and 128 * e1 + e3 < half_step
             det = "|k - ln2/12| = %.3e, OPN2 coef rel. err %.3e, OPNA coef rel. err %.3e" % (float(e1), float(e2), float(e3))
             if ok:
                 out.append(dict(name=name, status="ok", obligations=3, discharged=3, detail=det))
